@@ -32,6 +32,10 @@ def check(ctx):
                   'mode-explicit accessor, state the matching mode, and forward lattice, metadata and time step')
     ctx.doc('R4', 'slicing copies the metadata on every path; split builds its parts only by slicing')
     ctx.floor('R2', 20, 'in-place constructs enumerated on the pinned tree')
+    ctx.doc('K1', '[C20.R1] derived-object queries (metrics, transitions) are served through weak_lru_cache: its cache must be keyed on weakref.ref(self) '
+                  '(an id()-keyed cache hands a dead object\'s result to a new object at the same address)')
+    from .C20 import check_decorator
+    check_decorator(ctx, 'K1')
     ctx.floor('R3', 3)
     ctx.floor('R4', 2)
     scan = ctx.package_scan()
